@@ -7,7 +7,7 @@ import os
 import shutil
 
 from harness import wbgen
-from harness.common import canon, dec_val, enc_val, ensure_impl_on_path, same
+from harness.common import canon, dec_val, enc_val, ensure_impl_on_path, known_predicate, same
 
 GEN_MODULES = ['excelutil', 'aggregates', 'stats']
 
@@ -16,6 +16,16 @@ ASSUMPTIONS = [
     "ValueError for the others by design); values written to the inputs come from the clean pool",
     "the save/load leg goes through yml, json or pkl files in the check's work directory",
 ]
+
+
+# New finding, reported to the coordinator; INERT until it is entered in known_findings.json (no case with
+# call='trim-range-input' is generated): an input given as a range protects only the dependants of the range
+# node, a formula reading a member cell directly is frozen and goes stale (coq/Refuted/C08_range_input.v).
+#   A1=1, A2=2, A3==A1+10, A4==SUM(A1:A2)+A3; trim_graph(['S!A1:A2'], ['S!A4']); set_value('S!A1:A2', (5, 7));
+#   evaluate('S!A4') -> 12, untrimmed 27
+@known_predicate('C08-range-input')
+def _range_input(case):
+    return case.get('call') == 'trim-range-input'
 
 
 def ancestors(wb, n):
